@@ -4,6 +4,13 @@ check("C19", "exploration", "E", "bounded exhaustive enumeration (complete: 60 c
       "Complete enumeration of the finite configuration space the property quantifies over (capability tuples x plugins x names); nothing is left outside the bound except plugins added later, which are picked up automatically from the registries.",
       "Trusted: the 15-line reference predicate written from plugin.go's comments; hook VerifNames() returns the real name-table keys.", "DESIGN §5 C19")
 
+check("C01", "exploration", "E", "bounded exhaustive enumeration of trees x option vectors (deviation-bounded) x extractor sets on the real Scanner.Scan, against a reference dispatch model",
+      "Every tree up to the node bound and every option vector up to the deviation bound is executed on the real scan engine over an in-memory file system and compared call-for-call with an independent dispatch model; interactions of 2-3 options on small trees are exactly where the defects of this property live (3 found and fixed).",
+      "Trusted: the ~200-line reference model (git .gitignore semantics for a 5-pattern alphabet, skip rules as the property states them); regexp/glob matching libraries; memfs. Outside the bound: trees > 4 (quick) / 6 (thorough) nodes, > 2/3 simultaneous option deviations, gitignore negation.", "DESIGN §5 C01")
+check("C08", "exploration", "E", "exhaustive enumeration of every per-directory listing permutation x plugin-list permutation x root selection, differential against the canonical-order scan",
+      "All permutations of every directory listing of every tree up to the node bound, all orders of the plugin lists and all ordered selections of 2-3 roots are executed; the oracle is another run of the implementation (canonical order / single-root scans), so no expected value is hand-written.",
+      "Trusted: memfs returns entries exactly in the parameterised order; Go map iteration order is represented by its consequence (plugin list order). Outside the bound: trees > 5/6 nodes, > 3 roots.", "DESIGN §5 C08")
+
 ALL = ["C%02d" % i for i in range(1, 21)]
 for p in ALL:
     if p not in CHECKS:
